@@ -4,6 +4,7 @@ import (
 	"context"
 	"fmt"
 	"math/big"
+	"strings"
 	"time"
 
 	"github.com/iden3/go-merkletree-sql/v2"
@@ -203,6 +204,9 @@ func emitDerived(out *Out, g *DocGen, root *ANode, hs HSpec, r *Rng) {
 		}
 		// (f) restored from bytes with the same hasher: same root; entries hash with the configured hasher
 		bs, err := mz.MarshalBinary()
+		if err != nil && strings.Contains(err.Error(), "Time.MarshalBinary") {
+			return 0, nil // gob cannot encode this instant's zone offset: no binary form to restore (see C13)
+		}
 		if err != nil {
 			return 0, err
 		}
